@@ -40,7 +40,31 @@ func symbolNeedsQuoting(sym string) bool {
 		}
 	}
 
-	return false
+	// Unquoted, $ion_1_0 (and any $ion_<major>_<minor>) at the top level is an
+	// Ion version marker rather than a symbol value.
+	return isVersionMarkerText(sym)
+}
+
+// isVersionMarkerText returns true for text of the form $ion_<digits>_<digits>.
+func isVersionMarkerText(sym string) bool {
+	if !strings.HasPrefix(sym, "$ion_") {
+		return false
+	}
+	parts := strings.Split(sym[len("$ion_"):], "_")
+	if len(parts) != 2 {
+		return false
+	}
+	for _, part := range parts {
+		if len(part) == 0 {
+			return false
+		}
+		for i := 0; i < len(part); i++ {
+			if !isDigit(int(part[i])) {
+				return false
+			}
+		}
+	}
+	return true
 }
 
 // Is this a valid first character for an identifier?
